@@ -279,7 +279,16 @@ inductive MfState where
   | content (doc : CsvR.CsvDoc)
 deriving Repr
 
+/-- the first step of `SBT.load`: is `location` (or `location + ".sbt.zip"`) a zip file, and what does it hold -/
+inductive ZipState where
+  | none_                       -- neither is a zip file: the index description is read from `location[.sbt.json]`
+  | raises (c : Cls)            -- `ZipStorage(..)`, `list_sbts()` or `load(member)` raised (native code)
+  | members (nSbt : Nat)        -- opened; number of members whose name ends in `.sbt.json`
+deriving Repr
+
 structure SbtFile where
+  /-- the JSON decoder's answer for the index description that `SBT.load` ends up reading: the single `.sbt.json`
+      member of the zip (through a temporary file) when there is exactly one, else the file `location[.sbt.json]` -/
   dec : JsonDec
   /-- `os.makedirs(join(dirname, subdir))` in `FSStorage.__init__`, for the `path` the document names -/
   mkdirExc : Option Cls
@@ -289,7 +298,16 @@ structure SbtFile where
   manifest : MfState
   /-- are the optional `redis` / `ipfshttpclient` modules importable? -/
   netModules : Bool
+  zip : ZipState
+  /-- `open(sbt_fn)` failed with this class (the description file does not exist, is a directory, …) -/
+  openExc : Option Cls
 deriving Repr
+
+/-- a storage object exists before the description is read (so none is chosen from the document) -/
+def SbtFile.hasStorage (f : SbtFile) : Bool :=
+  match f.zip with
+  | .members _ => true
+  | _ => false
 
 structure SbtInfo where
   version : Nat
@@ -511,7 +529,7 @@ def sbtVersion (doc : J) : R J :=
   | _ => pure (.int 1)
 
 def storageFor (f : SbtFile) (v : Nat) (doc : J) : R Unit :=
-  if v < Gen.c20SbtHiddenDirBelow then pure () else pickStorage f doc
+  if f.hasStorage || v < Gen.c20SbtHiddenDirBelow then pure () else pickStorage f doc
 
 def infoOf (ld : Loaded) (mf : Option Nat) : SbtInfo :=
   ⟨ld.version, dOf ld.d, ld.ns.length, ld.ls.length, ld.maxNode.toNat, missingCount ld.maxNode ld.ns ld.ls, mf⟩
@@ -527,6 +545,10 @@ def manifestPath (doc : J) : R (Option J) := do
 /-- `storage.load(manifest_path)`, `.decode("utf-8")`, `CollectionManifest.load_from_csv` -/
 def attachManifest (lit : CsvR.Cell → CsvR.Lit) (f : SbtFile) (p : J) : Run Nat :=
   match p with
+  | .int i =>
+    -- FSStorage: Path(..) / subdir / 5 is a TypeError.  ZipStorage.load: `to_bytes(path)` accepts an int as one byte
+    -- (outside 0..255 a ValueError, which `load` turns into FileNotFoundError), then `len(path)` is a TypeError
+    if f.hasStorage && (i < 0 || i > 255) then ⟨raise .FileNotFoundError, 0⟩ else ⟨raise .TypeError, 0⟩
   | .str _ =>
     match f.manifest with
     | .fs .notFound => ⟨raise .FileNotFoundError, 0⟩
@@ -562,8 +584,14 @@ def loadSbtDoc (lit : CsvR.Cell → CsvR.Lit) (f : SbtFile) (doc : J) : Run SbtI
     | .error e => failRun e ((runLoader f v doc).work + (attachManifest lit f p).work)
     | .ok n => ⟨pure (infoOf ld (some n)), (runLoader f v doc).work + (attachManifest lit f p).work⟩
 
-/-- `SBT.load(location)` for a plain `.sbt.json` (no storage passed in, not a zip) -/
+/-- `SBT.load(location)` (no storage passed in): a `.sbt.json` next to its node directory, or a zip collection -/
 def loadSbt (lit : CsvR.Cell → CsvR.Lit) (f : SbtFile) : Run SbtInfo :=
+  match f.zip with
+  | .raises c => ⟨raise c, 0⟩
+  | _ =>
+  match f.openExc with
+  | some c => ⟨raise (if c == .NotADirectoryError then .ValueError else c), 0⟩      -- except NotADirectoryError: ValueError
+  | none =>
   match f.dec with
   | .jsonError => ⟨raise .JSONDecodeError, 0⟩      -- a ValueError subclass, not caught here
   | .valueError => ⟨raise .ValueError, 0⟩
